@@ -9,6 +9,7 @@ import Driver.PayloadOps
 import Driver.DevIdOps
 import Driver.AsyncOps
 import Driver.SchedOps
+import Driver.TxnOps
 open Lean Driver
 
 def dispatch (j : Json) : P Json := do
@@ -32,6 +33,8 @@ def dispatch (j : Json) : P Json := do
   | "crctable" => opCrcTable j
   | "async" => opAsync j
   | "sched" => opSched j
+  | "txn" => opTxn j
+  | "pyint16" => opPyInt j
   | o => throw s!"bad-op {o}"
 
 def handle (line : String) : String :=
